@@ -382,7 +382,7 @@ func c20Corpus() []struct {
 }
 
 func TestVerifC20(t *testing.T) {
-	w := verifOpen(t, c20ID())
+	w := verifOpen(t, "C20")
 	defer w.Close()
 	corpus := c20Corpus()
 	c20EnsureNode(t) // outside any bubble
@@ -499,5 +499,3 @@ func TestVerifC20(t *testing.T) {
 		w.Case(i, c20CaseTerm("mkCase", c), c, class, supp && unsupStream && reads)
 	}
 }
-
-func c20ID() string { return "C20" }
